@@ -46,3 +46,8 @@ Example C10_nonvacuous :
   to_frames (mkP false 21845 [1; 2; 3; 4; 5; 6; 7; 8; 9; 10]) =
   Val [mkF true true true true 1 21845 8 [1; 1; 2; 3; 4; 5; 6; 7]; mkF true false true false 1 21845 4 [1; 8; 9; 10; 0; 0; 0; 0]].
 Proof. reflexivity. Qed.
+
+(* the extracted checker ok_C10 accepts the model's observation for every packet of up to 28672 bytes *)
+Require Import RP.Glue.Wire RP.Glue.StreamPacket RP.Lemmas.GlueLemmas.
+Theorem C10_checker_accepts_model : forall p, small p -> ok_C10 (show_packet p) (run_FRG (show_packet p)) = [].
+Proof. exact ok_C10_accepts_model. Qed.
